@@ -47,6 +47,19 @@ PROPS = {
         phases=[P(kind="fuzz", bin="c04_names", runs_quick=12000, runs_thorough=2000000, workers_quick=12, workers_thorough=16, max_len=512, rss=4000, timeout=120, detect_leaks=0)],
         floor_quick=600, floor_thorough=50000,
     ),
+    "C07": P(
+        title="broadcasts reach exactly the matching connections",
+        level="exploration",
+        technique="stateful model-based testing with a grammar-based rule generator: libFuzzer-generated AddMatch/RemoveMatch/disconnect/broadcast histories on an in-process bus vs. an independent match-rule parser+matcher; ASan/UBSan decide the memory clause",
+        level_text=("Exploration: rule strings are generated from the specification's grammar (every key, four quoting styles, permuted keys, empty values, argN for N in {0,1,2,9,10,63}, argNpath, "
+                    "arg0namespace, eavesdrop) plus 14 kinds of ungrammatical mutants and length probes at 1023..1026 bytes; histories on 2-4 raw clients add and remove rules (same text, equivalent "
+                    "text, never-added), disconnect, and broadcast signals whose fields and leading arguments come from pools of mutually prefix-related values. AddMatch/RemoveMatch answers and the "
+                    "exact delivery set of every broadcast are compared with the model; the daemon runs under ASan/UBSan."),
+        level_note="Trusts engine/matchmodel.cc; UNSPEC rule shapes (whitespace, empty segments, >16 pairs, destination= well-known name, two kinds of match on one argument, RemoveMatch of a rule naming a departed unique name) carry no verdict; unicast copies seen by eavesdrop='true' holders are ignored here (C05/C18).",
+        rule=("case = history decoded from fuzzer input. Non-trivial = some broadcast was evaluated against >=2 rules on >=2 connections with >=1 match and >=1 non-match; distinct = FNV-1a of the log with unique names renamed."),
+        phases=[P(kind="fuzz", bin="c07_match", runs_quick=16000, runs_thorough=3000000, workers_quick=12, workers_thorough=16, max_len=1024, rss=4000, timeout=120, detect_leaks=0)],
+        floor_quick=800, floor_thorough=100000,
+    ),
     "C11": P(
         title="framing independent of chunking",
         level="exploration",
